@@ -196,6 +196,9 @@ class _ArraySizeInferInstance(DefaultVisitor):
         # Nesting depth in conditionally-executed regions (if / loop
         # bodies); only depth-0 asserts hold on every execution.
         self._cond_depth = 0
+        # Has a `return` in a conditionally-executed region been passed?  The
+        # statements after it are not reached on the executions it ends.
+        self._early_return = False
         self._callee_ret = {}
         self._ctx_use_cache = None
 
@@ -207,6 +210,10 @@ class _ArraySizeInferInstance(DefaultVisitor):
             yield
         finally:
             self._cond_depth -= 1
+
+    def _always_reached(self) -> bool:
+        """Is the statement being visited run on every execution?"""
+        return self._cond_depth == 0 and not self._early_return
 
     def _fresh_size(self) -> NamedId:
         """Mint a fresh size variable (only ever for arguments / free
@@ -443,10 +450,10 @@ class _ArraySizeInferInstance(DefaultVisitor):
                 elif concretes:
                     # all inputs must equal the concrete length(s)
                     size = next(iter(concretes)) if len(concretes) == 1 else None
-                    if size is not None and self._cond_depth == 0:
+                    if size is not None and self._always_reached():
                         for s in symbols:
                             self._pin_size(s, size)
-                elif self._cond_depth == 0:
+                elif self._always_reached():
                     # all symbolic: strict zip proves them equal
                     rep = symbols[0]
                     for s in symbols[1:]:
@@ -821,6 +828,8 @@ class _ArraySizeInferInstance(DefaultVisitor):
 
     def _visit_return(self, stmt: ReturnStmt, ctx: None):
         ret_size = self._visit_expr(stmt.expr, ctx)
+        if self._cond_depth > 0:
+            self._early_return = True
         if not isinstance(ret_size, ListSize):
             return
         # Across multiple returns, unify: concrete iff all paths agree.
@@ -833,7 +842,7 @@ class _ArraySizeInferInstance(DefaultVisitor):
         self._visit_expr(stmt.test, ctx)
         # Only an *unconditional* assert holds on every execution, so only
         # then may it constrain sizes globally (cf. strict ``zip``).
-        if self._cond_depth == 0:
+        if self._always_reached():
             self._seed_from_assert(stmt.test)
 
     def _seed_from_assert(self, test: Expr):
